@@ -319,7 +319,7 @@ pub fn init_strategy() -> BoxedStrategy<InitC> {
 }
 
 pub fn op_strategy(max_abs: u32) -> BoxedStrategy<COp> {
-    let k = prop_oneof![1 => Just(0u16), 3 => 1u16..=130, 1 => crate::gen::select(vec![32u16, 63, 64, 65, 128, 1024, 1088]), 2 => 0u16..=3000];
+    let k = prop_oneof![1 => Just(0u16), 3 => 1u16..=130, 1 => crate::gen::select(vec![32u16, 63, 64, 65, 128, 1024, 1088]), 2 => 0u16..=3000, 1 => 0u16..=65535];
     prop_oneof![
         10 => hist::size(max_abs).prop_map(COp::Update),
         1 => Just(COp::UpdateNull),
@@ -344,6 +344,39 @@ pub fn strategy(tier: Tier) -> BoxedStrategy<Case> {
     let max_abs = tier.pick(70_000u32, 800_000u32);
     (0u8..2, mask_strategy(), init_strategy(), gen::content(), prop::collection::vec(op_strategy(max_abs), 0..=max_ops))
         .prop_map(move |(variant, mask, init, content, ops)| Case { variant, mask, init, content, budget, ops })
+        .boxed()
+}
+
+/// Few, long operations: single blake3_hasher_update calls of 64 KiB .. 12 MiB after odd prefixes, long outputs.
+fn large_strategy(tier: Tier) -> BoxedStrategy<Case> {
+    use hist::Size;
+    let max = tier.pick(6u32 << 20, 12u32 << 20);
+    let big = prop_oneof![
+        3 => (6u32..=13, -3i32..=3, any::<bool>()).prop_map(|(j, d, x)| (((1024u32 << j) as i32) + d * if x { 1 } else { 1024 }) as u32),
+        2 => 65_536u32..=1_200_000,
+        2 => (1u32 << 20)..=max,
+    ];
+    let small = prop_oneof![2 => 0u32..=70, 2 => 0u32..=3000, 1 => (0u32..=70).prop_map(|c| c * 1024), 2 => 0u32..=70_000];
+    let step = (small, big, 0u8..6, gen::position_lattice(), any::<u16>()).prop_map(|(pre, sz, tail, seek, k)| {
+        let mut v = vec![COp::Update(Size::Abs(pre)), COp::Update(Size::Abs(sz))];
+        match tail {
+            0 => v.push(COp::Finalize(64)),
+            1 => v.push(COp::FinalizeSeek(seek, k)),
+            2 => {
+                v.push(COp::Finalize(32));
+                v.push(COp::Reset);
+            }
+            3 => v.push(COp::Copy),
+            _ => {}
+        }
+        v
+    });
+    (0u8..2, mask_strategy(), init_strategy(), gen::content(), prop::collection::vec(step, 1..=3))
+        .prop_map(|(variant, mask, init, content, steps)| {
+            let mut ops: Vec<COp> = steps.into_iter().flatten().collect();
+            ops.push(COp::Finalize(64));
+            Case { variant, mask, init, content, budget: 40 << 20, ops }
+        })
         .boxed()
 }
 
@@ -403,8 +436,18 @@ pub fn subs() -> Vec<Box<dyn DynSub>> {
             crumb: true,
         }),
         Box::new(PropSub::<Case> {
+            name: "c-large-ops",
+            rule: "proptest: build x feature mask x initialiser x 1-3 steps of (short odd prefix, then ONE blake3_hasher_update of 64 KiB-6 MiB (quick) / 12 MiB (thorough): 2^j chunks +-3 bytes/chunks, or random; then finalize / finalize_seek(lattice, k<=65535) / reset / struct copy); same oracles as c-api-histories",
+            cases: (160, 6_000),
+            strategy: large_strategy,
+            classify,
+            check,
+            known: None,
+            crumb: true,
+        }),
+        Box::new(PropSub::<Case> {
         name: "c-api-histories",
-        rule: "proptest: (library build: assembly | C intrinsics) x (g_cpu_features mask: portable/SSE2/SSE4.1/AVX2/AVX-512) x (init | init_keyed | init_derive_key | init_derive_key_raw with NUL/invalid UTF-8) x 0-30 ops of update (sizes resolved against the running total) / update(NULL,0) / finalize(k) / finalize_seek(seek from the 64*K lattice, k<=3000) / finalize_seek(NULL,0) / reset / struct copy / swap; every output vs spec S[seek..seek+k] and vs the Rust crate, hasher bytes compared across finalize, reset hasher in lockstep with a fresh twin; non-trivial = >=2 updates with >1 chunk, or seek%64!=0, or a reset",
+        rule: "proptest: (library build: assembly | C intrinsics) x (g_cpu_features mask: portable/SSE2/SSE4.1/AVX2/AVX-512) x (init | init_keyed | init_derive_key | init_derive_key_raw with NUL/invalid UTF-8) x 0-30 ops of update (sizes resolved against the running total) / update(NULL,0) / finalize(k) / finalize_seek(seek from the 64*K lattice, k<=65535) / finalize_seek(NULL,0) / reset / struct copy / swap; every output vs spec S[seek..seek+k] and vs the Rust crate, hasher bytes compared across finalize, reset hasher in lockstep with a fresh twin; non-trivial = >=2 updates with >1 chunk, or seek%64!=0, or a reset",
         cases: (24_000, 200_000),
         strategy,
         classify,
